@@ -309,6 +309,11 @@ type zzOuter struct {
 	N int64
 }
 
+type zzOuterP struct {
+	*zzBox
+	N int64
+}
+
 // ZZ_C11_methods_of_other_kinds: pointer- and value-receiver methods on a
 // pointer to a named slice / integer, on a named map, promoted through an
 // embedded struct; plain, spread and through a container.
@@ -325,7 +330,27 @@ func ZZ_C11_methods_of_other_kinds() {
 	e.Define("dc", dc)
 	e.Define("out", out)
 	e.Define("W", w)
-	switch zz.Choose(10) {
+	e.Define("outp", &zzOuterP{N: 1}) // the embedded pointer is nil
+	switch zz.Choose(15) {
+	case 10:
+		// member syntax reads the value's *exported* fields: an unexported one is an error, never a crash
+		_, err := Execute(e, nil, "out.c")
+		zz.Assert(err != nil, "C11.member/unexported-field-is-error")
+	case 11:
+		_, err := Execute(e, nil, "x = out.zzBox; 1")
+		zz.Assert(err != nil, "C11.member/unexported-field-is-error")
+	case 12:
+		_, err := Execute(e, nil, "[out.c]")
+		zz.Assert(err != nil, "C11.member/unexported-field-is-error")
+	case 13:
+		// a field promoted through a nil embedded pointer does not exist in this value
+		_, err := Execute(e, nil, "outp.A")
+		zz.Assert(err != nil, "C11.member/field-through-nil-embedded-pointer-is-error")
+		r, err2 := Execute(e, nil, "outp.N")
+		zz.Assert(err2 == nil && r == int64(1), "C11.member/own-field-next-to-nil-embedded-pointer")
+	case 14:
+		_, err := Execute(e, nil, "outp.A = W")
+		zz.Assert(err != nil, "C11.member/field-through-nil-embedded-pointer-is-error")
 	case 0:
 		r, err := Execute(e, nil, "st.Push(W)")
 		zz.Assert(err == nil && r == int64(2) && len(*st) == 2 && (*st)[1] == w, "C11.method/pointer-receiver-on-pointer-to-named-slice")
